@@ -2,6 +2,8 @@
   kw      every positional argument of a call that resolves to a pfhedge function or method is passed by keyword
   locals  every `return <expr>` becomes `result_ = <expr>; return result_`
   ifelse  `x = a if c else b` assignments become if/else statements
+  rename  every local variable of every function is renamed (suffix _r)
+  torchfn x.exp() / x.log() / x.sqrt() / x.square() / x.cumsum(..) ... become torch.exp(x) ...
 usage: selftest/refactor_gen.py <variant> <out dir>     writes a rewritten copy of /repo/pfhedge to <out dir>/pfhedge
        selftest/refactor_gen.py run <variant>           rewrite, (MT_SUITE=1: run the pinned suite on it,) run every check, report"""
 import ast
@@ -101,6 +103,68 @@ class IfElse(ast.NodeTransformer):
         return node
 
 
+class RenameLocals(ast.NodeTransformer):
+    """every local variable of a function (assigned in its own body, not a parameter) gets the suffix _r, consistently in nested scopes;
+    functions with nested definitions that rebind one of those names are left alone"""
+    def __init__(self):
+        self.n = 0
+
+    def visit_FunctionDef(self, node):
+        self.generic_visit(node)
+        params = {a.arg for a in node.args.args + node.args.kwonlyargs + node.args.posonlyargs} | ({node.args.vararg.arg} if node.args.vararg else set()) | ({node.args.kwarg.arg} if node.args.kwarg else set())
+        own, nested_bind, declared = set(), set(), set()
+
+        def collect(n, top):
+            for c in ast.iter_child_nodes(n):
+                if isinstance(c, (ast.FunctionDef, ast.Lambda, ast.ClassDef)):
+                    if isinstance(c, ast.FunctionDef):
+                        (own if top else nested_bind).add(c.name)
+                    a = getattr(c, "args", None)
+                    if a is not None:
+                        nested_bind.update(x.arg for x in a.args + a.kwonlyargs)
+                    for t in ast.walk(c):
+                        if isinstance(t, ast.Name) and isinstance(t.ctx, ast.Store):
+                            nested_bind.add(t.id)
+                    continue
+                if isinstance(c, (ast.Global, ast.Nonlocal)):
+                    declared.update(c.names)
+                if isinstance(c, ast.Name) and isinstance(c.ctx, ast.Store) and not isinstance(n, (ast.ListComp, ast.GeneratorExp, ast.SetComp, ast.DictComp, ast.comprehension)):
+                    own.add(c.id)
+                if isinstance(c, (ast.ListComp, ast.GeneratorExp, ast.SetComp, ast.DictComp)):
+                    for t in ast.walk(c):
+                        if isinstance(t, ast.Name) and isinstance(t.ctx, ast.Store):
+                            nested_bind.add(t.id)
+                    continue
+                collect(c, top)
+        collect(node, True)
+        names = {x for x in own if x not in params and x not in declared and x not in nested_bind and not x.startswith("__")}
+        names -= {c.name for c in ast.walk(node) if isinstance(c, ast.FunctionDef)}
+        if not names:
+            return node
+        for t in ast.walk(node):
+            if isinstance(t, ast.Name) and t.id in names:
+                t.id = t.id + "_r"
+        self.n += len(names)
+        return node
+
+
+TORCH_POINTWISE = {"exp", "log", "sqrt", "square", "abs", "cumsum", "cumprod", "relu", "sigmoid", "tanh", "isnan"}
+
+
+class TorchFunctionForm(ast.NodeTransformer):
+    """x.exp() -> torch.exp(x) for a few pointwise / scan methods (in modules that import torch)"""
+    def __init__(self):
+        self.n = 0
+
+    def visit_Call(self, node):
+        self.generic_visit(node)
+        f = node.func
+        if isinstance(f, ast.Attribute) and f.attr in TORCH_POINTWISE - {"relu"} and not (isinstance(f.value, ast.Name) and f.value.id in ("torch", "fn", "F", "math", "np", "self")):
+            self.n += 1
+            return ast.Call(func=ast.Attribute(value=ast.Name(id="torch", ctx=ast.Load()), attr=f.attr, ctx=ast.Load()), args=[f.value] + node.args, keywords=node.keywords)
+        return node
+
+
 def rewrite(variant, out):
     out = pathlib.Path(out)
     shutil.copytree("/repo/pfhedge", out / "pfhedge")
@@ -109,7 +173,9 @@ def rewrite(variant, out):
     for mod in prog.modules.values():
         rel = pathlib.Path(mod.path).relative_to(os.environ.get("PFSA_REPO", "/repo"))
         tree = ast.parse(pathlib.Path(mod.path).read_text())
-        tr = {"kw": lambda: KwRewriter(prog, mod.name), "locals": ReturnLocal, "ifelse": IfElse}[variant]()
+        if variant == "torchfn" and not any(l.strip() == "import torch" for l in pathlib.Path(mod.path).read_text().splitlines()):
+            continue
+        tr = {"kw": lambda: KwRewriter(prog, mod.name), "locals": ReturnLocal, "ifelse": IfElse, "rename": RenameLocals, "torchfn": TorchFunctionForm}[variant]()
         tree = tr.visit(tree)
         if tr.n:
             ast.fix_missing_locations(tree)
